@@ -7,7 +7,7 @@ from ..keval import KEval, Ref, Cond, Const, Top
 from ..poly import Poly, ZERO, ONE
 from ..forms import value_poly, real_guards, short, acc_name_of, is_full_range, scalar_resets
 from ..trav import check_slim_counter, counter_increments, counter_init_zero
-from .. import wire
+from .. import wire, paths
 from ..model import norm_text, AnchorMissing
 from ..controls import Control
 from ..mutate import in_func
@@ -355,45 +355,44 @@ def wiring(ctx, p):
 
 
 def grid_stack(ctx, p):
+    """decided on what the functions return with every local substituted and the thin wrapper array_2d_native_from written out (sa/paths.py, unfold): stack((conv(component 0),
+    conv(component 1)), axis=-1), each conversion on the same mask"""
     rule = "C01.components"
-    for key, callee, comp_kw in ((f"{G2}:grid_2d_slim_from", f"{A2}:array_2d_slim_from", "array_2d_native"), (f"{G2}:grid_2d_native_from", f"{A2}:array_2d_native_from", "array_2d_slim")):
+    wrapper = f"{A2}:array_2d_native_from"
+    for key, leaf, comp_kw in ((f"{G2}:grid_2d_slim_from", "array_2d_slim_from", "array_2d_native"), (f"{G2}:grid_2d_native_from", "array_2d_via_indexes_from", "array_2d_slim")):
         f = p.func(key)
-        cs = wire.calls_to(p, f, callee)
-        ok = len(cs) == 2
+        PS = paths.path_summaries(f, project=p, unfold={wrapper}) or []
+        rets = paths.returns(PS)
+        ok = len(PS) == 1 and len(rets) == 1
         det = ""
         if ok:
-            comps = []
-            masks = set()
-            names = []
-            for c in cs:
-                b = wire.kw(c, p.func(callee))
-                e = wire.strip_np_array(b.get(comp_kw))
+            stack = rets[0].value
+            ok = isinstance(stack, ast.Call) and paths.ptext(stack.func) in ("np.stack", "numpy.stack") and len(stack.args) == 1 and isinstance(stack.args[0], (ast.Tuple, ast.List)) \
+                and {k.arg: paths.ptext(k.value) for k in stack.keywords} == {"axis": "-1"}
+            comps, masks = [], set()
+            for e in (stack.args[0].elts if ok else []):
                 k = None
-                if isinstance(e, ast.Subscript):
-                    els = e.slice.elts if isinstance(e.slice, ast.Tuple) else [e.slice]
-                    if isinstance(els[-1], ast.Constant) and all(isinstance(x, ast.Slice) and x.lower is None and x.upper is None for x in els[:-1]):
-                        k = els[-1].value
+                if isinstance(e, ast.Call) and paths.ptext(e.func).split(".")[-1] == leaf:
+                    kw = paths.kwargs(e)
+                    src = wire.strip_np_array(kw.get(comp_kw)) if kw.get(comp_kw) is not None else None
+                    if isinstance(src, ast.Subscript) and isinstance(src.value, ast.Name):
+                        els = src.slice.elts if isinstance(src.slice, ast.Tuple) else [src.slice]
+                        if isinstance(els[-1], ast.Constant) and all(isinstance(x, ast.Slice) and x.lower is None and x.upper is None for x in els[:-1]):
+                            k = els[-1].value
+                    for kk, v in kw.items():
+                        if kk.startswith("mask"):
+                            masks.add(paths.ptext(wire.strip_np_array(v)))
+                        elif kk == "shape":
+                            for m_ in ast.walk(v):
+                                if isinstance(m_, ast.Attribute) and m_.attr == "shape":
+                                    masks.add(paths.ptext(wire.strip_np_array(m_.value)))
+                        elif kk == "native_index_for_slim_index_2d":
+                            inner = [c_ for c_ in ast.walk(v) if isinstance(c_, ast.Call) and paths.ptext(c_.func).split(".")[-1] == "native_index_for_slim_index_2d_from"]
+                            masks.add(paths.ptext(wire.strip_np_array(paths.kwargs(inner[0]).get("mask_2d"))) if len(inner) == 1 else "?")
                 comps.append(k)
-                masks.add(norm_text(wire.strip_np_array([v for kk, v in b.items() if kk.startswith("mask")][0])))
-            rets = wire.returns_of(f)
-            stack = rets[0].value if rets else None
-            order = None
-            axis = None
-            if isinstance(stack, ast.Call) and norm_text(stack.func) in ("np.stack", "numpy.stack") and stack.args:
-                seq = wire.resolve_local(f, stack.args[0])   # the stacked sequence, directly or through a local
-                if isinstance(seq, (ast.Tuple, ast.List)):
-                    # which conversion call does each stacked element denote?
-                    order = []
-                    for x in seq.elts:
-                        hit = [i for i, c in enumerate(cs) if wire.is_value_of(f, x, c)]
-                        order.append(hit[0] if len(hit) == 1 else None)
-                ax = wire.kw(stack).get("axis")
-                axis = ast.literal_eval(ax) if ax is not None else 0
-            names = [0, 1]
-            stacked = [comps[i] if i is not None else None for i in (order or [])]   # the component each stacked element was converted from
-            det = f"converted components {sorted(c for c in comps if c is not None)}; stacked in order {stacked} axis={axis}; masks {sorted(masks)}"
-            ok = sorted(c for c in comps if c is not None) == [0, 1] and stacked == [0, 1] and axis == -1 and len(masks) == 1
-        ctx.ob(rule, key, ok, where=f, node=cs[0] if cs else f.node, construct=det,
+            det = f"stacked components {comps} axis=-1; masks {sorted(masks)}"
+            ok = ok and comps == [0, 1] and len(masks) == 1 and "?" not in masks
+        ctx.ob(rule, key, ok, where=f, node=f.node, construct=det or (rets[0].text[:200] if rets else ""),
                message="component 0 (y) then component 1 (x) must each be converted with the same mask and stacked back in that order on the last axis")
 
 
